@@ -14,7 +14,7 @@ import (
 
 func init() {
 	register("C20",
-		"Structural conformance of common.AsyncMapReduce to the ack-and-join protocol: obligations A1..A10 over the SSA form of the function and its goroutine literals (map called once per item with an iteration-private argument; one acknowledgement per item; single reducer goroutine; Done only after the effect; Add(len) before spawning; Wait dominates return; done-handshake before channels close; results read after join; nothing else touches the channels). Together these imply map-once, serial reduce, join before return, all errors returned and no leaked goroutine (hand argument in DESIGN §3 R1). It is a shape check of the source, not an observation of executions.",
+		"Structural conformance of common.AsyncMapReduce to the ack-and-join protocol: obligations A1..A10 over the SSA form of the function and its goroutine literals (map called once per item with an iteration-private argument; one acknowledgement per item; single reducer goroutine; Done only after the effect; Add(len) before spawning; Wait dominates return; done-handshake before channels close; results read after join; nothing else touches the channels). Together these imply map-once, serial reduce, join before return, every worker error handed to the error-list extension and no leaked goroutine (hand argument in DESIGN §3 R1). NOT implied: that every item is either reduced or visible in the returned error list — the extension (gqlerrors.ExtendErrorList → FormatError) adds nothing for a non-nil error that is an empty or typed-nil ErrorList, so such an item is neither reduced nor reported and a positional accumulator slot stays unfilled (fourth audit, AMR-C1). It is a shape check of the source, not an observation of executions.",
 		ruleAMR)
 }
 
@@ -328,6 +328,7 @@ func ruleAMR(r *Run) {
 		return
 	}
 	a := &amr{r: r, fn: fn, all: withClosures(fn), rule: rule}
+	r.Assume("R1 shows that every error a worker receives from mapFunc reaches the error-list extension before the join; it does not show that the extension records it: gqlerrors.FormatError yields no entry for a non-nil error that is an empty (or typed-nil) ErrorList, in which case the item is neither reduced nor reported (callers that index the accumulator by position then find a nil slot)")
 	if len(fn.Params) != 4 {
 		a.bad("anchor", "signature", nil, "helper no longer has the four parameters (payload, acc, mapFunc, reduceFunc)")
 		return
@@ -941,7 +942,7 @@ func ruleAMR(r *Run) {
 			if mn != 1 || mx != 1 || cyc {
 				a.bad("A4", "done-count-err", sel, fmt.Sprintf("the C_err case calls wg.Done() between %d and %d times per received error (exactly 1 required): Wait never returns or returns early", mn, mx))
 			} else if good {
-				a.ok("A4", "err-case", est, "receive → errs = extend(errs, err) → exactly one wg.Done() → back to select")
+				a.ok("A4", "err-case", est, "receive → errs = extend(errs, err) → exactly one wg.Done() → back to select (the stored list depends on the received error; how many entries the extension adds for it — none for an empty ErrorList — is not checked)")
 			}
 		default:
 			// candidate done channel: its body must leave the reducer without further effects
